@@ -266,9 +266,9 @@ func TestC08(t *testing.T) {
 	lc, restore := captureLog()
 	defer restore()
 	_ = lc
-	n := rec.N(2000, 100000)
+	n := rec.N(2000, 500000)
 	if rec.Race() {
-		n = rec.N(500, 20000)
+		n = rec.N(500, 60000)
 	}
 	rec.Suite("scenarios", n, func(c *ev.Case) {
 		r := c.R
